@@ -119,7 +119,8 @@ impl AggK {
 #[derive(Clone, Debug)]
 enum Item {
     Key(usize),                                  // index into `group`
-    Agg(AggK, Option<(&'static str, i64)>),      // optional arithmetic wrapper `agg op const`
+    Agg(AggK, Option<(&'static str, i64, u8)>),  // optional wrapper `agg op const`, itself wrapped once more (third field:
+                                                 // 0 nothing, 1 `greatest(_, 0)`, 2 `least(_, 5)`, 3 `abs(_)`, 4 `(_) * 2`, 5 `- (_)`)
 }
 
 #[derive(Clone, Debug)]
@@ -177,7 +178,10 @@ impl TypedQuery {
         let items: Vec<String> = self.items.iter().map(|it| match it {
             Item::Key(i) => COLS[self.group[*i]].to_owned(),
             Item::Agg(a, None) => a.sql(),
-            Item::Agg(a, Some((op, c))) => format!("{} {} {}", a.sql(), op, c),
+            Item::Agg(a, Some((op, c, outer))) => {
+                let inner = format!("{} {} {}", a.sql(), op, c);
+                match outer { 1 => format!("greatest({}, 0)", inner), 2 => format!("least({}, 5)", inner), 3 => format!("abs({})", inner), 4 => format!("({}) * 2", inner), 5 => format!("- ({})", inner), _ => inner }
+            }
         }).collect();
         let mut q = format!("SELECT {} FROM t", items.join(", "));
         if let Some(p) = &self.wher {
@@ -221,7 +225,7 @@ pub fn gen_typed_query(rng: &mut Rng) -> TypedQuery {
             items.push(Item::Key(rng.below(group.len())));
         } else {
             let a = gen_agg(rng);
-            let wrap = if a.int_valued() && rng.chance(1, 4) { Some((*rng.pick(&["+", "*", "-"]), *rng.pick(&[1i64, 2, 10]))) } else { None };
+            let wrap = if a.int_valued() && rng.chance(1, 3) { Some((*rng.pick(&["+", "*", "-"]), *rng.pick(&[1i64, 2, 10]), if rng.chance(1, 2) { 0u8 } else { 1 + rng.below(5) as u8 })) } else { None };
             items.push(Item::Agg(a, wrap));
         }
     }
@@ -394,11 +398,14 @@ fn ref_aggregate(a: &AggK, rows: &[&Vec<Value>]) -> Value {
     }
 }
 
-fn apply_wrap(v: Value, wrap: &Option<(&'static str, i64)>) -> Value {
+fn apply_wrap(v: Value, wrap: &Option<(&'static str, i64, u8)>) -> Value {
     match (v, wrap) {
         (v, None) => v,
-        (Value::Int(x), Some((op, c))) => Value::Int(match *op { "+" => x + c, "-" => x - c, _ => x * c }),
-        (_, Some(_)) => Value::Null, // NULL op const = NULL
+        (Value::Int(x), Some((op, c, outer))) => {
+            let inner = match *op { "+" => x + c, "-" => x - c, _ => x * c };
+            Value::Int(match outer { 1 => inner.max(0), 2 => inner.min(5), 3 => inner.abs(), 4 => inner * 2, 5 => -inner, _ => inner })
+        }
+        (_, Some(_)) => Value::Null, // NULL op const = NULL, and every outer wrapper of NULL is NULL
     }
 }
 
